@@ -13,7 +13,7 @@ import os as _os
 import numpy as np
 from symlas import core, z, loader
 from symlas.driver import apply_exclusions
-from symlas.stubs import SymFile
+from symlas.stubs import SymFile, OutFile
 from symlas.values import SymStr, SymInt, B, concat, fresh_int, fresh_bool
 from checks.common import allc, printable, is_stripped, not_char
 from checks import datafile as DF
@@ -38,10 +38,11 @@ ASSUMPTIONS = [
     "channels: the text has >= 2 lines and its first line is a section title (texts whose first line looks like a URL are not LAS files)",
     "the symbolic part of the text is one ~Well value (printable Latin-1 incl. non-ASCII letters, no ':')",
 ]
-WITNESS_TARGETS = ["non-ascii-header-character", "bom-detected", "explicit-encoding", "chardet-used", "adhoc-encoding-used", "mutation-then-reread", "line-break-like-character-in-header-text"]
+WITNESS_TARGETS = ["non-ascii-header-character", "bom-detected", "explicit-encoding", "chardet-used", "adhoc-encoding-used", "mutation-then-reread", "line-break-like-character-in-header-text", "text-without-version-or-well-section"]
 EXCLUSIONS = {}
 CHANNELS = ["string", "stringio", "fileobj", "path", "pathlib"]
-MUTATIONS = ["append-well-item", "assign-value", "rename-curve", "set_data-names", "delete-curve", "change-array", "reads-with-other-options"]
+MUTATIONS = ["append-well-item", "assign-value", "rename-curve", "set_data-names", "delete-curve", "change-array", "reads-with-other-options", "write"]
+OMITS = ["none", "version", "well"]
 
 
 def tasks(tier):
@@ -55,9 +56,13 @@ def tasks(tier):
     return out
 
 
-def text_lines(value):
-    return ["~Version", "VERS. 2.0 : v", "WRAP. NO : w", "~Well", "NULL. -9 : n", "Fld. North Field : mixed-case mnemonic", concat(["COMP. ", value, " : company"]) if isinstance(value, SymStr) else "COMP. " + value + " : company",
-            "~Curve", "DEPT.M : d", "GR.API : g", "~A", "1 10", "2 -9"]
+def text_lines(value, omit="none"):
+    """omit: 'none', 'version' (no ~Version section: the result keeps lasio's default items for it) or
+    'well' (no ~Well section; the symbolic value then sits in ~Parameter)"""
+    comp = concat(["COMP. ", value, " : company"]) if isinstance(value, SymStr) else "COMP. " + value + " : company"
+    ver = [] if omit == "version" else ["~Version", "VERS. 2.0 : v", "WRAP. NO : w"]
+    well = ["~Parameter", comp] if omit == "well" else ["~Well", "STRT.M 1 : s", "STOP.M 2 : e", "STEP.M 1 : i", "NULL. -9 : n", "Fld. North Field : mixed-case mnemonic", comp]
+    return ver + well + ["~Curve", "DEPT.M : d", "GR.API : g", "~A", "1 10", "2 -9"]
 
 
 class Handle(SymFile):
@@ -134,6 +139,12 @@ def make_shims(fs, chardet_answer="ascii"):
 
 def snap(las):
     return DF.header_snapshot(las), DF.curves_as_lists(las), [cv.original_mnemonic for cv in list.__iter__(las.curves)], las.index_unit
+
+
+def same_header(a, b):
+    from checks.c09 import same_snapshot
+
+    return same_snapshot((a, [], []), (b, [], []))
 
 
 def snap_eq(a, b):
@@ -310,11 +321,15 @@ def h_purity(ns, p):
         A(z.Or(z.in_range_c(v.chars[0], 65, 90), z.in_range_c(v.chars[0], 97, 122), z.in_range_c(v.chars[0], 0xC0, 0xFE)))
         nm = SymStr.fresh("nm", 2, minlen=1)
         A(allc(nm, lambda c: z.in_range_c(c, 65, 90)))
-        inputs = {"part": "purity", "mutation": mut, "value": v, "name": nm}
+        om = fresh_int("omitted_section", 0, 2)
+        inputs = {"part": "purity", "mutation": mut, "value": v, "name": nm, "omitted_section": om}
         cx = core.ctx()
         cx.inputs = inputs
         apply_exclusions(inputs)
-        lines = text_lines(v)
+        omit = OMITS[om.__index__()]
+        core.witness("text-without-version-or-well-section", omit != "none")
+        lines = text_lines(v, omit)
+        fresh0 = DF.header_snapshot(ns.las.LASFile())
         las1 = ns.las.LASFile()
         las1.read(SymFile(lines), mnemonic_case="preserve")
         s1 = snap(las1)
@@ -326,7 +341,11 @@ def h_purity(ns, p):
         elif mut == "assign-value":
             las1.well["NULL"].value = 0
             las1.version["VERS"].value = 1.2
+            las1.version["WRAP"].descr = nm
             las1.well["COMP"].value = nm
+            las1.well["STRT"].descr = nm
+        elif mut == "write":
+            ns.writer.write(las1, OutFile(name="<w>"), version=1.2, STRT=5, STEP=7)
         elif mut == "rename-curve":
             list.__getitem__(las1.curves, 1).mnemonic = nm
         elif mut == "set_data-names":
@@ -349,6 +368,7 @@ def h_purity(ns, p):
         s2 = snap(las2)
         fresh = ns.las.LASFile()
         obl = [("second-read-equals-first", snap_eq(s2, s1)),
+               ("fresh-object-equals-the-fresh-object-before", same_header(DF.header_snapshot(fresh), fresh0)),
                ("fresh-object-has-default-header", len(list(list.__iter__(fresh.well))) == 16 and len(list(list.__iter__(fresh.curves))) == 0 and len(list(list.__iter__(fresh.params))) == 0 and fresh.well["NULL"].value == -9999.25 and fresh.version["VERS"].value == 2.0)]
         core.oblige_all(obl)
         return {"observed": {"curves": s2[2]}}
@@ -450,7 +470,8 @@ def replay(i):
         obs = {"encoding": enc}
     else:
         v, nm, mut = i["value"], i["name"], i["mutation"]
-        text = "\n".join(text_lines(v)) + "\n"
+        text = "\n".join(text_lines(v, OMITS[i.get("omitted_section", 0)])) + "\n"
+        fresh0 = DF.header_snapshot(lasio.LASFile())
         las1 = lasio.read(text, mnemonic_case="preserve")
         s1 = snap(las1)
         if mut == "append-well-item":
@@ -459,7 +480,12 @@ def replay(i):
         elif mut == "assign-value":
             las1.well["NULL"].value = 0
             las1.version["VERS"].value = 1.2
+            las1.version["WRAP"].descr = nm
             las1.well["COMP"].value = nm
+            las1.well["STRT"].descr = nm
+        elif mut == "write":
+            import io
+            las1.write(io.StringIO(), version=1.2, STRT=5, STEP=7)
         elif mut == "rename-curve":
             las1.curves[1].mnemonic = nm
         elif mut == "set_data-names":
@@ -480,6 +506,8 @@ def replay(i):
         if not bool(snap_eq(s2, s1)):
             problems.append("second read differs from the first: %r vs %r" % (s2, s1))
         fresh = lasio.LASFile()
+        if not bool(same_header(DF.header_snapshot(fresh), fresh0)):
+            problems.append("a fresh LASFile differs from one created before the mutation: %r vs %r" % (DF.header_snapshot(fresh), fresh0))
         if len(fresh.well) != 16 or len(fresh.curves) or len(fresh.params) or fresh.well["NULL"].value != -9999.25:
             problems.append("a fresh LASFile no longer has the default header")
         obs = {"curves": s2[2]}
